@@ -658,6 +658,7 @@ fn multi(t: &mut Tape) -> Input {
                     max_defs: 4,
                     importable: importable.clone(),
                     schema_index: (i + 1) as u32,
+                    rich: false,
                 };
                 let st = if t.bool() { Style::from_tape(t) } else { Style::plain() };
                 let mut g = Gen::new(t, cfg);
@@ -681,6 +682,7 @@ fn multi(t: &mut Tape) -> Input {
         max_defs: 5,
         importable,
         schema_index: 0,
+        rich: false,
     };
     let st = Style::from_tape(t);
     let main_name = if t.chance(40) { text::ps(t, MAIN_NAMES) } else { "main" };
